@@ -421,11 +421,39 @@ def r06d(model, ctx):
             ctx.check(attrs <= kind[1], R, f"{name}:seq-no-data-edges", f"comb edges only from {sorted(attrs)}",
                       f"{name} is sequential: only {sorted(kind[1])} may be comb edge sources, found {sorted(attrs)}",
                       f"{NIR}:{ce.lineno}")
+            if "arst" in kind[1]:
+                # an asynchronous reset reaches the output without a clock edge: it is a combinational edge, for every net
+                # (check_comb_cycles runs before late-bound nets are resolved, so nothing about the net may be assumed)
+                gated = [unparse(t) for y, fs in filt if "arst" in unparse(y.value) for t in fs]
+                ctx.check("arst" in attrs and not gated, R, f"{name}:arst-edge", "arst -> output is an unconditional comb edge",
+                          f"{name}.comb_edges_to must yield the asynchronous reset as an edge unconditionally (found sources "
+                          f"{sorted(attrs)}, conditions {gated}): otherwise a loop q -> logic -> arst -> q is accepted",
+                          f"{NIR}:{ce.lineno}")
         else:
             ctx.check(not attrs, R, f"{name}:no-edges", "no comb edges", f"{name} must have no comb edges, found {sorted(attrs)}",
                       f"{NIR}:{ce.lineno}")
     # traverse(): per-bit flag is consulted before edges; extra nets are all other outputs of the cell
     ft = model.func(f"{NIR}::Netlist.check_comb_cycles.traverse")
+    # every net entered is marked busy — unconditionally, whatever its kind — before anything is followed from it, and the
+    # mark is taken off with remove() (a discard() hides a net that was never marked): a loop made of wiring only (late-bound
+    # nets, no cell) is otherwise followed for ever
+    from ..engine.astutil import parent_map, dominating_conditions
+    pmt = parent_map(ft)
+    adds = [c for c in ast.walk(ft) if isinstance(c, ast.Call) and unparse(c.func) == "busy.add" and unparse(c.args[0]) == "net"]
+    rec = [c for c in ast.walk(ft) if isinstance(c, ast.Call) and unparse(c.func) == "traverse"]
+    need(rec, "traverse: the recursive calls were not found")
+    def _stmt_of(n):
+        while n is not None and not isinstance(n, ast.stmt):
+            n = pmt.get(n)
+        return n
+    conds_add = [unparse(t) for a in adds for t, pol in dominating_conditions(pmt, _stmt_of(a), ft)
+                 if unparse(t) not in ("net in checked", "net in busy")]
+    okb = len(adds) == 1 and not conds_add and all(adds[0].lineno < r.lineno for r in rec if r.lineno > ft.lineno + 1) and \
+        not any(isinstance(c, ast.Call) and unparse(c.func) == "busy.discard" for c in ast.walk(ft))
+    ctx.check(okb, R, "traverse:busy-mark", "every net is marked busy before its sources are followed, and unmarked with remove()",
+              f"traverse must mark every net it enters as busy (found busy.add(net) under {conds_add or 'no condition'}) before "
+              f"recursing: with late-bound nets left unmarked a cycle through plain wiring (a.eq(b); b.eq(a)) is never closed and the "
+              f"traversal recurses until it crashes instead of raising CombinationalCycle", f"{NIR}:{ft.lineno}")
     ifs = [s for s in ast.walk(ft) if isinstance(s, ast.If) and pmatch("not cell.comb_edges_is_per_bit()", s.test) is not None]
     ok = len(ifs) == 1 and any(isinstance(n, ast.Call) and unparse(n.func) == "cell.output_nets" for n in ast.walk(ifs[0])) \
         and any(isinstance(n, ast.Call) and unparse(n.func) == "busy.add" for n in ast.walk(ifs[0]))
